@@ -423,6 +423,48 @@ CAMPAIGNS['C07'].append(camp(
     'missing key, tuple vs list, key order, big ints, non-string keys): '
     'served from the cache iff the keys are JSON-equal',
     post='tag_all:C07'))
+WIDE_RULE = ('wide builds: one statement builds 130-260 outputs (over '
+             'foreign files or previous outputs), so that more than 128 files '
+             'are moved aside in one build, then the build fails and is '
+             'rolled back')
+CAMPAIGNS['C02'].append(camp('c02-wide', 'wide', {}, WIDE_RULE,
+                             nontrivial=nt_rollback_restored, chunk=2,
+                             weight=0.4))
+CAMPAIGNS['C03'].append(camp('c03-wide', 'wide', {}, WIDE_RULE,
+                             nontrivial=nt_rollback_restored, chunk=2,
+                             weight=0.3))
+RETRY = dict(FAILURE_HEAVY, p_retry=0.5, p_catch=0.9, p_mutate_step=0.15,
+             n_steps=(3, 5), w_bf=40, p_tamper=0.5)
+CAMPAIGNS['C14'].append(camp(
+    'c14-retry-sweep', 'C14', RETRY,
+    'programs that call build_file again with other arguments after a '
+    'caught failure; OSError at every pre-commit mutating call index, half '
+    'of them followed by a failure of the root function (rollback after a '
+    'caught internal error)', mode='oserror-sweep',
+    nontrivial=nt_rollback_restored, chunk=6, follow=1, crash_end=True,
+    sweep_max={'quick': 12, 'thorough': None}))
+CAMPAIGNS['C14'][0]['crash_end'] = True
+CAMPAIGNS['C03'].append(camp(
+    'c03-oserror', 'C03', dict(OVERLAP, p_catch=0.75), OVERLAP_RULE +
+    '; OSError (incl. EXDEV) at every pre-commit mutating call, half of them '
+    'followed by a failure of the root function', mode='oserror-sweep',
+    nontrivial=nt_rollback_restored, chunk=6, follow=1, crash_end=True,
+    errnos=['EXDEV', 'EACCES', 'ENOSPC'], torn=False,
+    sweep_max={'quick': 10, 'thorough': None}))
+CACHE_IN_DIR = dict(
+    p_cache_in_output_dir=1.0, n_steps=(3, 7), p_mutate_step=0.15,
+    p_clean_step=0.3, p_catch=0.85, w_raise=8, p_write_never=0.12,
+    n_groups=(1, 1), n_paths=(3, 6), p_chain=0.3, w_q=20, w_bf=36)
+CACHE_IN_DIR_RULE = ('the cache file lives inside a directory (chain) that '
+                     'also receives outputs and may have been created by an '
+                     'earlier build; programs ask file-level questions only '
+                     '(when the cache directory appears in the view is '
+                     'unspecified)')
+for _p, _post in (('C12', 'tag_after_clean'), ('C01', None), ('C10',
+                                                              'tag_all:C10')):
+    CAMPAIGNS[_p].append(camp(_p.lower() + '-cache-in-output-dir', _p,
+                              CACHE_IN_DIR, CACHE_IN_DIR_RULE,
+                              **({'post': _post} if _post else {})))
 CAMPAIGNS['C03'].append(camp('c03-overlap', 'C03', OVERLAP, OVERLAP_RULE))
 CAMPAIGNS['C03'].append(camp(
     'c03-overlap-crash', 'C03', OVERLAP, OVERLAP_RULE, mode='crash-sweep',
@@ -534,6 +576,7 @@ def run_case(camp, seed, tier='quick'):
         if mode == 'oserror-sweep':
             sc['errnos'] = camp.get('errnos', ['ENOSPC', 'EACCES', 'EIO'])
             sc['torn'] = camp.get('torn', True)
+            sc['crash_end'] = camp.get('crash_end', False)
         res = run_scenario(sc)
         if res['verdict'] == 'violation' and res.get('fault') is not None:
             # the replayable form carries the one fault that failed
